@@ -117,6 +117,14 @@ Definition merge_from (self other : config) : config * config := (merge_into sel
    After the swap `self` holds the curated config and `temp` the user's; temp is dropped. *)
 Definition fill_with_curated (curated self : config) : config := fst (merge_from curated self).
 
+(* harper-wasm Linter::set_lint_config_from_json / set_lint_config_from_object (harper-wasm/src/lib.rs, since
+   b67a243 "setting the lint configuration resets rules the new configuration leaves unset"):
+     let mut new_config = <parse>?;  self.lint_group.config.clear();  self.lint_group.config.merge_from(&mut new_config);
+   Returns (stored', new_config').  Linter::new starts from new_curated_empty_config = clear(curated). *)
+Definition wasm_set_config (stored new : config) : config * config := merge_from (clear stored) new.
+(* as it WAS before b67a243 (finding FC11a; kept for the regression witness in History/C11History.v only) *)
+Definition wasm_set_config_old (stored new : config) : config * config := merge_from stored new.
+
 (* impl Hash: per entry  hasher.write(key.as_bytes()); then write_u8(1); write_u8(value as u8)
    or write_u8(0); write_u8(0).  `hash_calls` is the sequence of write calls (write_u8(b) = write(&[b])),
    `hash_bytes` the byte stream a hasher sees if it ignores call boundaries. *)
@@ -471,6 +479,7 @@ Inductive cop :=
 | CSetIfUnset (i : nat) (k : key) (b : bool)
 | CClear (i : nat)
 | CMerge (i j : nat)           (* regs[i].merge_from(&mut regs[j]), i <> j *)
+| CWasmSet (i j : nat)         (* harper_wasm::Linter::set_lint_config_*: regs[i] the stored config, regs[j] the parsed one, i <> j *)
 | CFill (i : nat)              (* regs[i].fill_with_curated() *)
 | CCurated (i : nat)           (* regs[i] = LintGroupConfig::new_curated() *)
 | CDefault (i : nat)           (* regs[i] = LintGroupConfig::default() *)
@@ -493,6 +502,9 @@ Definition exec_cop (rs : list config) (o : cop) : list config :=
   | CMerge i j =>
       if Nat.eqb i j then rs
       else let p := merge_from (reg rs i) (reg rs j) in set_reg (set_reg rs i (fst p)) j (snd p)
+  | CWasmSet i j =>
+      if Nat.eqb i j then rs
+      else let p := wasm_set_config (reg rs i) (reg rs j) in set_reg (set_reg rs i (fst p)) j (snd p)
   | CFill i => set_reg rs i (fill_with_curated curated_cfg (reg rs i))
   | CCurated i => set_reg rs i curated_cfg
   | CDefault i => set_reg rs i empty_cfg
@@ -528,7 +540,7 @@ Definition greg (gs : list dgroup) (i : nat) : dgroup := nth i gs (g_empty drule
 Definition retarget (o : cop) : cop :=
   match o with
   | CSet _ k b => CSet 0 k b | CUnset _ k => CUnset 0 k | CSetIfUnset _ k b => CSetIfUnset 0 k b
-  | CClear _ => CClear 0 | CMerge _ _ => CClear 1 | CFill _ => CFill 0 | CCurated _ => CCurated 0
+  | CClear _ => CClear 0 | CMerge _ _ => CClear 1 | CWasmSet _ _ => CClear 1 | CFill _ => CFill 0 | CCurated _ => CCurated 0
   | CDefault _ => CDefault 0 | CCopy _ _ => CClear 1 | CJson _ => CJson 0
   end.
 Definition exec_gop (gs : list dgroup) (o : gop) : list dgroup :=
